@@ -476,21 +476,45 @@ Section Resolution.
 End Resolution.
 
 (* --- the model follows the specification over every history -------------------- *)
-Definition is_changed (s : signal) : bool := match s with SigChanged _ _ _ _ => true | _ => false end.
+Definition is_changed (s : signal) : bool := match s with SigChanged _ _ _ _ _ => true | _ => false end.
 
 Section Main.
   Variable h : hier.
   Hypothesis Hwf : wf h.
 
   Definition op_clear (o : op) : Prop :=
-    match o with OGet i n | OSet i n _ => clear h i n | _ => True end.
+    match o with OGet _ i n | OSet _ i n _ => clear h i n | _ => True end.
 
   Definition stepc := step current (iface_names h) (spec_binds h).
   Definition runc := run current (iface_names h) (spec_binds h).
 
   Definition sinv (hist : list op) (st : state) : Prop :=
-    s_exported st = exported hist /\
+    (forall c, exp_on st c = exported_on hist c) /\
+    s_handler st = handler_of hist /\
     forall i n, read_val current st (i, n) = latest h hist i n.
+
+  (* how one operation moves the export tables and the object's handler *)
+  Definition exp_after (o : op) (old : nat -> bool) (c : nat) : bool :=
+    match o with
+    | OExport c' => if Nat.eqb c' c then true else old c
+    | OUnexport c' => if Nat.eqb c' c then false else old c
+    | _ => old c
+    end.
+  Definition handler_after (o : op) (old : option nat) : option nat :=
+    match o with OExport c => Some c | _ => old end.
+
+  Lemma existsb_filter_neq l c c' :
+    existsb (Nat.eqb c) (filter (fun x => negb (Nat.eqb x c')) l)
+    = if Nat.eqb c' c then false else existsb (Nat.eqb c) l.
+  Proof.
+    induction l as [|x l IH]; cbn [filter existsb]; [destruct (Nat.eqb c' c); reflexivity|].
+    destruct (Nat.eqb x c') eqn:Ex; cbn [negb existsb].
+    - apply Nat.eqb_eq in Ex; subst x. rewrite IH.
+      destruct (Nat.eqb c' c) eqn:E; [reflexivity|].
+      rewrite Nat.eqb_sym, E. reflexivity.
+    - rewrite IH. destruct (Nat.eqb c' c) eqn:E; [|reflexivity].
+      apply Nat.eqb_eq in E; subst c'. rewrite Nat.eqb_sym, Ex. reflexivity.
+  Qed.
 
   Lemma read_store st k v i n :
     read_val current (store current st k v) (i, n)
@@ -510,7 +534,7 @@ Section Main.
     unfold set_resolved. cbn [legacy_sigtype current].
     destruct (p_emits (b_prop b)); try reflexivity.
     destruct (wrap_decl (p_sig (b_prop b)) v); [|reflexivity].
-    destruct (s_exported st); [|reflexivity].
+    destruct (s_handler st); [|reflexivity].
     destruct (wire_variant a) as [[sg x]|]; reflexivity.
   Qed.
 
@@ -522,51 +546,58 @@ Section Main.
       end.
   Proof. unfold assign. destruct (lookup_attr (spec_binds h) a) as [[k b]|]; reflexivity. Qed.
 
-  (* what one operation does to the stored values *)
+  (* what one operation does to the export tables, the handler and the stored values *)
   Lemma step_state st o :
     op_clear o ->
     let st' := fst (fst (stepc st o)) in
-    s_exported st' = (is_export o || s_exported st)%bool /\
+    (forall c, exp_on st' c = exp_after o (exp_on st) c) /\
+    s_handler st' = handler_after o (s_handler st) /\
     forall i n,
       read_val current st' (i, n)
-      = match write_of h (s_exported st) o with
+      = match write_of h (exp_on st (arrives o)) o with
         | Some (d, v) => if str_eqb (dc_iface d) i && str_eqb (dc_name d) n then v
                          else read_val current st (i, n)
         | None => read_val current st (i, n)
         end.
   Proof.
-    intro Hc. unfold stepc. destruct o as [a v| |i n|i n v|i]; cbn [step write_of is_export orb].
+    intro Hc. unfold stepc.
+    destruct o as [a v|c'|c'|c' i n|c' i n v|c' i]; cbn [step write_of arrives exp_after handler_after].
     - rewrite assign_current. pose proof (by_attr_lookup h Hwf a) as H.
       destruct (lookup_attr (spec_binds h) a) as [[k b]|]; destruct (by_attr h a) as [d|]; try contradiction.
       + destruct H as [-> Hb]. cbn [option_map].
         destruct (set_resolved current st b v) as [[st' ok] sg] eqn:E.
         pose proof (set_resolved_state st b v) as Hs. rewrite E in Hs. cbn [fst] in Hs |- *. subst st'.
-        split; [reflexivity|]. intros i n. rewrite read_store. reflexivity.
-      + cbn [option_map fst]. split; reflexivity.
+        split; [reflexivity|]. split; [reflexivity|]. intros i n. rewrite read_store. reflexivity.
+      + cbn [option_map fst]. repeat split; reflexivity.
     - unfold export. cbn zeta.
       match goal with |- context [fold_left ?f ?l ?a] => destruct (fold_left f l a) end;
-        cbn [fst s_exported]; split; reflexivity.
-    - destruct (s_exported st) eqn:E; cbn [fst all_built s_exported]; rewrite ?E; split; reflexivity.
-    - destruct (s_exported st) eqn:E; [|cbn [fst]; rewrite E; split; reflexivity].
+        cbn [fst]; (split; [intro c; unfold exp_on; cbn [s_exps existsb]; rewrite (Nat.eqb_sym c c');
+                            destruct (Nat.eqb c' c); reflexivity|split; reflexivity]).
+    - unfold unexport. destruct (exp_on st c') eqn:E; cbn [fst].
+      + split; [|split; reflexivity]. intro c. unfold exp_on. cbn [s_exps]. apply existsb_filter_neq.
+      + split; [|split; reflexivity]. intro c. destruct (Nat.eqb c' c) eqn:Ec; [|reflexivity].
+        apply Nat.eqb_eq in Ec; subst c'. exact E.
+    - destruct (exp_on st c') eqn:E; cbn [fst]; repeat split; reflexivity.
+    - destruct (exp_on st c') eqn:E; [|cbn [fst]; repeat split; reflexivity].
       unfold prop_set. pose proof (named_search h Hwf i n Hc) as H.
       destruct (search (caches (spec_binds h)) i n) as [b|]; destruct (named h i n) as [d|]; try contradiction.
       + destruct H as (Hb & Ei & Ep & En). unfold writable. rewrite Ep.
         destruct (p_acc (b_prop b)) eqn:Ea.
-        * cbn [fst all_built s_exported]. rewrite E. split; reflexivity.
+        * cbn [fst]. repeat split; reflexivity.
         * rewrite assign_current. destruct (lookup_attr_in h Hwf b Hb) as (k & ->).
           destruct (set_resolved current (all_built (spec_binds h) st) b v) as [[st' ok] sg] eqn:Es.
           pose proof (set_resolved_state (all_built (spec_binds h) st) b v) as Hs. rewrite Es in Hs.
-          cbn [fst] in Hs |- *. subst st'. cbn [store all_built s_exported]. rewrite E.
-          split; [reflexivity|]. intros i' n'. rewrite read_store.
+          cbn [fst] in Hs |- *. subst st'.
+          split; [reflexivity|]. split; [reflexivity|]. intros i' n'. rewrite read_store.
           unfold key_of. cbn [fst snd]. rewrite Ei. unfold dc_name. rewrite Ep. reflexivity.
         * rewrite assign_current. destruct (lookup_attr_in h Hwf b Hb) as (k & ->).
           destruct (set_resolved current (all_built (spec_binds h) st) b v) as [[st' ok] sg] eqn:Es.
           pose proof (set_resolved_state (all_built (spec_binds h) st) b v) as Hs. rewrite Es in Hs.
-          cbn [fst] in Hs |- *. subst st'. cbn [store all_built s_exported]. rewrite E.
-          split; [reflexivity|]. intros i' n'. rewrite read_store.
+          cbn [fst] in Hs |- *. subst st'.
+          split; [reflexivity|]. split; [reflexivity|]. intros i' n'. rewrite read_store.
           unfold key_of. cbn [fst snd]. rewrite Ei. unfold dc_name. rewrite Ep. reflexivity.
-      + cbn [fst all_built s_exported]. rewrite E. split; reflexivity.
-    - destruct (s_exported st) eqn:E; cbn [fst all_built s_exported]; rewrite ?E; split; reflexivity.
+      + cbn [fst]. repeat split; reflexivity.
+    - destruct (exp_on st c') eqn:E; cbn [fst]; repeat split; reflexivity.
   Qed.
 End Main.
 
@@ -581,44 +612,53 @@ Section Theorems.
   Lemma runc_snoc hist o : runc h (hist ++ [o]) = fst (fst (stepc h (runc h hist) o)).
   Proof. unfold runc, run. rewrite run_from_app. reflexivity. Qed.
 
-  Lemma exported_snoc hist o : exported (hist ++ [o]) = (is_export o || exported hist)%bool.
-  Proof. unfold exported. rewrite rev_app_distr. reflexivity. Qed.
+  Lemma exported_snoc hist o c :
+    exported_on (hist ++ [o]) c = exp_after o (exported_on hist) c.
+  Proof. unfold exported_on. rewrite rev_app_distr. destruct o; reflexivity. Qed.
+
+  Lemma handler_snoc hist o : handler_of (hist ++ [o]) = handler_after o (handler_of hist).
+  Proof. unfold handler_of. rewrite rev_app_distr. destruct o; reflexivity. Qed.
 
   Lemma latest_snoc hist o i n :
     latest h (hist ++ [o]) i n
-    = match write_of h (exported hist) o with
+    = match write_of h (exported_on hist (arrives o)) o with
       | Some (d, v) => if str_eqb (dc_iface d) i && str_eqb (dc_name d) n then v else latest h hist i n
       | None => latest h hist i n
       end.
-  Proof. unfold latest, exported. rewrite rev_app_distr. reflexivity. Qed.
+  Proof. unfold latest, exported_on. rewrite rev_app_distr. reflexivity. Qed.
+
+  Lemma exp_after_ext o f g c : (forall c, f c = g c) -> exp_after o f c = exp_after o g c.
+  Proof. intro H. destruct o; cbn [exp_after]; rewrite ?H; reflexivity. Qed.
 
   Lemma sinv_step hist st o :
     sinv h hist st -> op_clear h o -> sinv h (hist ++ [o]) (fst (fst (stepc h st o))).
   Proof.
-    intros [He Hv] Hc. destruct (step_state h Hwf st o Hc) as [He' Hv'].
-    split.
-    - rewrite He', exported_snoc, He. reflexivity.
+    intros (He & Hh & Hv) Hc. destruct (step_state h Hwf st o Hc) as (He' & Hh' & Hv').
+    split; [|split].
+    - intro c. rewrite He', exported_snoc. apply exp_after_ext. exact He.
+    - rewrite Hh', handler_snoc, Hh. reflexivity.
     - intros i n. rewrite Hv', latest_snoc, He.
-      destruct (write_of h (exported hist) o) as [[d v]|]; rewrite Hv; reflexivity.
+      destruct (write_of h (exported_on hist (arrives o)) o) as [[d v]|]; rewrite Hv; reflexivity.
   Qed.
 
   (* the state after ANY history of clear operations holds, for every property,
-     the value the specification calls the latest *)
+     the value the specification calls the latest, and the export tables and
+     handler reference the history determines *)
   Lemma sinv_run hist : Forall (op_clear h) hist -> sinv h hist (runc h hist).
   Proof.
     induction hist as [|o hist IH] using rev_ind; intro Hf.
-    - split; [reflexivity|]. intros i n. reflexivity.
+    - split; [intro c; reflexivity|]. split; [reflexivity|]. intros i n. reflexivity.
     - apply Forall_app in Hf as [Hf Ho]. inversion Ho; subst.
       rewrite runc_snoc. apply sinv_step; [apply IH; exact Hf|assumption].
   Qed.
 
   (* Get *)
-  Lemma get_reply hist st i n :
+  Lemma get_reply hist st c i n :
     sinv h hist st -> clear h i n ->
-    snd (fst (stepc h st (OGet i n))) = s_get present h hist i n.
+    snd (fst (stepc h st (OGet c i n))) = s_get present h hist c i n.
   Proof.
-    intros [He Hv] Hc. unfold stepc, s_get. cbn [step]. rewrite <- He.
-    destruct (s_exported st); [|reflexivity]. cbn [fst snd].
+    intros (He & Hh & Hv) Hc. unfold stepc, s_get. cbn [step]. rewrite <- He.
+    destruct (exp_on st c); [|reflexivity]. cbn [fst snd].
     unfold prop_get. pose proof (named_search h Hwf i n Hc) as H.
     destruct (search (caches (spec_binds h)) i n) as [b|]; destruct (named h i n) as [d|]; try contradiction; [|reflexivity].
     destruct H as (Hb & Ei & Ep & En). unfold readable, shown. rewrite Ep.
@@ -630,27 +670,31 @@ Section Theorems.
   (* PropertiesChanged *)
   Lemma set_resolved_signals st b v :
     filter is_changed (snd (set_resolved current st b v))
-    = if (match p_emits (b_prop b) with EmTrue => true | _ => false end) && s_exported st
-      then match present (p_sig (b_prop b)) v with
-           | Ok (sg, x) => [SigChanged (b_iface b) (b_name b) sg x]
-           | Err _ => []
+    = if (match p_emits (b_prop b) with EmTrue => true | _ => false end)
+      then match s_handler st with
+           | Some c =>
+               match present (p_sig (b_prop b)) v with
+               | Ok (sg, x) => [SigChanged c (b_iface b) (b_name b) sg x]
+               | Err _ => []
+               end
+           | None => []
            end
       else [].
   Proof.
     unfold set_resolved, present. cbn [legacy_sigtype current].
-    destruct (p_emits (b_prop b)); cbn [andb snd filter]; try reflexivity.
+    destruct (p_emits (b_prop b)); cbn [snd filter]; try reflexivity.
     destruct (wrap_decl (p_sig (b_prop b)) v) as [w|e]; cbn [Base.bind].
-    - destruct (s_exported st); [|reflexivity].
+    - destruct (s_handler st); [|reflexivity].
       destruct (wire_variant w) as [[sg x]|]; reflexivity.
-    - destruct (s_exported st); reflexivity.
+    - destruct (s_handler st); reflexivity.
   Qed.
 
   Lemma changed_signals hist st o :
     sinv h hist st -> op_clear h o ->
     filter is_changed (snd (stepc h st o)) = s_changed present h hist o.
   Proof.
-    intros [He Hv] Hc. unfold stepc, s_changed. rewrite <- He.
-    destruct o as [a v| |i n|i n v|i]; cbn [step write_of].
+    intros (He & Hh & Hv) Hc. unfold stepc, s_changed. rewrite <- He, <- Hh.
+    destruct o as [a v|c'|c'|c' i n|c' i n v|c' i]; cbn [step write_of arrives].
     - rewrite assign_current. pose proof (by_attr_lookup h Hwf a) as H.
       destruct (lookup_attr (spec_binds h) a) as [[k b]|]; destruct (by_attr h a) as [d|]; try contradiction; [|reflexivity].
       destruct H as [-> Hb]. cbn [option_map decl_of dc_prop dc_iface].
@@ -659,8 +703,9 @@ Section Theorems.
       rewrite Hs. unfold notifies, dc_name. cbn [dc_prop]. reflexivity.
     - unfold export. cbn zeta.
       match goal with |- context [fold_left ?f ?l ?a] => destruct (fold_left f l a) end; reflexivity.
-    - destruct (s_exported st); reflexivity.
-    - destruct (s_exported st) eqn:E; [|reflexivity].
+    - unfold unexport. destruct (exp_on st c'); reflexivity.
+    - destruct (exp_on st c'); reflexivity.
+    - destruct (exp_on st c') eqn:E; [|reflexivity].
       unfold prop_set. pose proof (named_search h Hwf i n Hc) as H.
       destruct (search (caches (spec_binds h)) i n) as [b|]; destruct (named h i n) as [d|]; try contradiction; [|reflexivity].
       destruct H as (Hb & Ei & Ep & En). unfold writable. rewrite Ep.
@@ -668,19 +713,31 @@ Section Theorems.
         rewrite assign_current; destruct (lookup_attr_in h Hwf b Hb) as (k & ->);
         destruct (set_resolved current (all_built (spec_binds h) st) b v) as [[st' ok] sg] eqn:Es;
         pose proof (set_resolved_signals (all_built (spec_binds h) st) b v) as Hs; rewrite Es in Hs;
-        cbn [snd all_built s_exported] in Hs |- *; rewrite Hs, E;
+        cbn [snd all_built s_handler] in Hs |- *; rewrite Hs;
         unfold notifies, dc_name; rewrite Ep, Ei; reflexivity.
-    - destruct (s_exported st); reflexivity.
+    - destruct (exp_on st c'); reflexivity.
+  Qed.
+
+  (* the specified signals are among those the statement demands *)
+  Lemma changed_demanded_refl conns hist o :
+    changed_demanded present h conns hist o (s_changed present h hist o).
+  Proof.
+    unfold changed_demanded. destruct (handler_of hist) as [c|] eqn:E.
+    - destruct (exported_on hist c); [reflexivity|].
+      destruct (existsb (exported_on hist) conns); [reflexivity|right; reflexivity].
+    - unfold s_changed. rewrite E.
+      destruct (write_of h (exported_on hist (arrives o)) o) as [[d v]|]; [|reflexivity].
+      destruct (notifies (dc_prop d)); reflexivity.
   Qed.
 
   (* refusals: a Set that the specification does not count as a write answers
      with an error and emits nothing; reads never emit *)
-  Lemma set_refused st i n v :
-    clear h i n -> write_of h (s_exported st) (OSet i n v) = None ->
-    snd (fst (stepc h st (OSet i n v))) = RErr /\ snd (stepc h st (OSet i n v)) = [].
+  Lemma set_refused st c i n v :
+    clear h i n -> write_of h (exp_on st c) (OSet c i n v) = None ->
+    snd (fst (stepc h st (OSet c i n v))) = RErr /\ snd (stepc h st (OSet c i n v)) = [].
   Proof.
     intros Hc. unfold stepc. cbn [step write_of].
-    destruct (s_exported st) eqn:E; [|intros _; split; reflexivity].
+    destruct (exp_on st c) eqn:E; [|intros _; split; reflexivity].
     unfold prop_set. pose proof (named_search h Hwf i n Hc) as H.
     destruct (search (caches (spec_binds h)) i n) as [b|]; destruct (named h i n) as [d|]; try contradiction;
       [|intros _; split; reflexivity].
@@ -688,13 +745,14 @@ Section Theorems.
     destruct (p_acc (b_prop b)); [intros _; split; reflexivity|discriminate|discriminate].
   Qed.
 
-  Lemma set_accepted st i n v d :
-    clear h i n -> write_of h (s_exported st) (OSet i n v) = Some (d, v) ->
-    snd (fst (stepc h st (OSet i n v)))
+  Lemma set_accepted st c i n v d :
+    clear h i n -> s_handler st <> None -> write_of h (exp_on st c) (OSet c i n v) = Some (d, v) ->
+    snd (fst (stepc h st (OSet c i n v)))
     = if notifies (dc_prop d) && negb (is_ok (present (p_sig (dc_prop d)) v)) then RErr else ROk.
   Proof.
-    intros Hc. unfold stepc. cbn [step write_of].
-    destruct (s_exported st) eqn:E; [|discriminate].
+    intros Hc Hh. unfold stepc. cbn [step write_of].
+    destruct (exp_on st c) eqn:E; [|discriminate].
+    destruct (s_handler st) as [L|] eqn:EL; [clear Hh|congruence].
     unfold prop_set. pose proof (named_search h Hwf i n Hc) as H.
     destruct (search (caches (spec_binds h)) i n) as [b|]; destruct (named h i n) as [d'|]; try contradiction;
       [|discriminate].
@@ -702,11 +760,18 @@ Section Theorems.
     destruct (p_acc (b_prop b)) eqn:Ea; [discriminate| |];
       intro Hd; injection Hd as <-;
       rewrite assign_current; destruct (lookup_attr_in h Hwf b Hb) as (k & ->);
-      unfold set_resolved, present, notifies; cbn [legacy_sigtype current all_built s_exported];
-      rewrite E, Ep;
+      unfold set_resolved, present, notifies; cbn [legacy_sigtype current all_built s_handler];
+      rewrite Ep, EL;
       (destruct (p_emits (b_prop b)); cbn [andb fst snd]; try reflexivity;
-       destruct (wrap_decl (p_sig (b_prop b)) v) as [w|e]; cbn [Base.bind is_ok negb fst snd]; [|reflexivity];
-       destruct (wire_variant w) as [[sg x]|]; reflexivity).
+       destruct (wrap_decl (p_sig (b_prop b)) v) as [w|e]; cbn [Base.bind is_ok negb fst snd andb];
+       [ destruct (wire_variant w) as [[sg x]|]; reflexivity | reflexivity ]).
+  Qed.
+
+  Lemma exp_in_handler older c : exp_in older c = true -> handler_in older <> None.
+  Proof.
+    induction older as [|o r IH]; cbn [exp_in handler_in]; [discriminate|].
+    destruct o; try exact IH; [discriminate|].
+    destruct (Nat.eqb c0 c); [discriminate|exact IH].
   Qed.
 End Theorems.
 
@@ -871,9 +936,9 @@ Section GetAllExact.
   Qed.
 
   (* GetAll i = exactly the readable properties of interface i, over the whole hierarchy *)
-  Lemma getall_exact hist st i :
-    sinv h hist st -> nonempty i = true -> s_exported st = true ->
-    match snd (fst (stepc h st (OGetAll i))) with
+  Lemma getall_exact hist st c i :
+    sinv h hist st -> nonempty i = true -> exp_on st c = true ->
+    match snd (fst (stepc h st (OGetAll c i))) with
     | RDict d =>
         (forall n, alist_get str_eqb n d
                    = match s_entry present h hist i n with Some (Ok x) => Some x | _ => None end) /\
@@ -882,7 +947,7 @@ Section GetAllExact.
     | _ => False
     end.
   Proof.
-    intros [He Hv] Hne Hex. unfold stepc. cbn [step]. rewrite Hex. cbn [fst snd].
+    intros (He & Hh & Hv) Hne Hex. unfold stepc. cbn [step]. rewrite Hex. cbn [fst snd].
     unfold prop_get_all, get_all. rewrite Hne. unfold caches.
     rewrite get_all_named_fold.
     set (L := Lof i (map cache_of (spec_binds h))).
@@ -984,11 +1049,11 @@ Section Final.
   Notation stepm := (step current (iface_names h) bs).
   Notation runm := (run current (iface_names h) bs).
 
-  Lemma c17_get_latest hist i n :
+  Lemma c17_get_latest hist c i n :
     Forall (op_clear h) hist -> clear h i n ->
-    snd (fst (stepm (runm hist) (OGet i n))) = s_get present h hist i n.
+    snd (fst (stepm (runm hist) (OGet c i n))) = s_get present h hist c i n.
   Proof.
-    intros Hf Hcl. rewrite Hbs. exact (get_reply h Hwf hist _ i n (sinv_run h Hwf hist Hf) Hcl).
+    intros Hf Hcl. rewrite Hbs. exact (get_reply h Hwf hist _ c i n (sinv_run h Hwf hist Hf) Hcl).
   Qed.
 
   Lemma c17_access_matrix hist o :
@@ -997,35 +1062,38 @@ Section Final.
     let out := stepm st o in
     (forall i n,
         read_val current (fst (fst out)) (i, n)
-        = match write_of h (exported hist) o with
+        = match write_of h (exported_on hist (arrives o)) o with
           | Some (d, v) => if str_eqb (dc_iface d) i && str_eqb (dc_name d) n then v
                            else read_val current st (i, n)
           | None => read_val current st (i, n)
           end) /\
-    (forall i n v, o = OSet i n v -> write_of h (exported hist) o = None ->
-                   snd (fst out) = RErr /\ snd out = []) /\
-    (forall i n v d, o = OSet i n v -> write_of h (exported hist) o = Some (d, v) ->
-                     snd (fst out) = if notifies (dc_prop d) && negb (is_ok (present (p_sig (dc_prop d)) v))
-                                     then RErr else ROk) /\
-    (forall i n, o = OGet i n ->
-                 match named h i n with Some d => readable (dc_prop d) = false | None => True end ->
-                 snd (fst out) = RErr).
+    (forall c i n v, o = OSet c i n v -> write_of h (exported_on hist c) o = None ->
+                     snd (fst out) = RErr /\ snd out = []) /\
+    (forall c i n v d, o = OSet c i n v -> write_of h (exported_on hist c) o = Some (d, v) ->
+                       snd (fst out) = if notifies (dc_prop d) && negb (is_ok (present (p_sig (dc_prop d)) v))
+                                       then RErr else ROk) /\
+    (forall c i n, o = OGet c i n ->
+                   match named h i n with Some d => readable (dc_prop d) = false | None => True end ->
+                   snd (fst out) = RErr).
   Proof.
     intros Hf Hc. cbn zeta. rewrite Hbs.
-    pose proof (sinv_run h Hwf hist Hf) as Hs. destruct Hs as [He Hv]. fold (runc h hist) in *.
+    pose proof (sinv_run h Hwf hist Hf) as Hs. destruct Hs as (He & Hh & Hv). fold (runc h hist) in *.
     fold (stepc h (runc h hist) o).
     split; [|split; [|split]].
-    - intros i n. rewrite <- He. exact (proj2 (step_state h Hwf (runc h hist) o Hc) i n).
-    - intros i n v -> Hw. rewrite <- He in Hw. exact (set_refused h Hwf _ i n v Hc Hw).
-    - intros i n v d -> Hw. rewrite <- He in Hw. exact (set_accepted h Hwf _ i n v d Hc Hw).
-    - intros i n -> Hn. rewrite (get_reply h Hwf hist _ i n (conj He Hv) Hc).
-      unfold s_get. destruct (exported hist); [|reflexivity].
+    - intros i n. rewrite <- He. exact (proj2 (proj2 (step_state h Hwf (runc h hist) o Hc)) i n).
+    - intros c i n v -> Hw. rewrite <- He in Hw. exact (set_refused h Hwf _ c i n v Hc Hw).
+    - intros c i n v d -> Hw. rewrite <- He in Hw.
+      apply (set_accepted h Hwf _ c i n v d Hc); [|exact Hw].
+      rewrite Hh. cbn [write_of] in Hw. destruct (exp_on (runc h hist) c) eqn:E; [|discriminate].
+      rewrite He in E. exact (exp_in_handler _ c E).
+    - intros c i n -> Hn. rewrite (get_reply h Hwf hist _ c i n (conj He (conj Hh Hv)) Hc).
+      unfold s_get. destruct (exported_on hist c); [|reflexivity].
       destruct (named h i n) as [d|]; [rewrite Hn|]; reflexivity.
   Qed.
 
-  Lemma c17_getall_exact hist i :
-    Forall (op_clear h) hist -> nonempty i = true -> exported hist = true ->
-    match snd (fst (stepm (runm hist) (OGetAll i))) with
+  Lemma c17_getall_exact hist c i :
+    Forall (op_clear h) hist -> nonempty i = true -> exported_on hist c = true ->
+    match snd (fst (stepm (runm hist) (OGetAll c i))) with
     | RDict d =>
         (forall n, alist_get str_eqb n d
                    = match s_entry present h hist i n with Some (Ok x) => Some x | _ => None end) /\
@@ -1035,7 +1103,7 @@ Section Final.
     end.
   Proof.
     intros Hf Hne Hex. rewrite Hbs. pose proof (sinv_run h Hwf hist Hf) as Hs.
-    apply (getall_exact h Hwf hist _ i Hs Hne). rewrite (proj1 Hs). exact Hex.
+    apply (getall_exact h Hwf hist _ c i Hs Hne). rewrite (proj1 Hs). exact Hex.
   Qed.
 
   Lemma c17_changed_signal hist o :
@@ -1043,5 +1111,14 @@ Section Final.
     filter is_changed (snd (stepm (runm hist) o)) = s_changed present h hist o.
   Proof.
     intros Hf Hc. rewrite Hbs. exact (changed_signals h Hwf hist _ o (sinv_run h Hwf hist Hf) Hc).
+  Qed.
+
+  (* the emitted signals are among those the statement demands, for any set of connections *)
+  Lemma c17_changed_signal_handlers conns hist o :
+    Forall (op_clear h) hist -> op_clear h o ->
+    changed_demanded present h conns hist o
+      (filter is_changed (snd (stepm (runm hist) o))).
+  Proof.
+    intros Hf Hc. rewrite (c17_changed_signal hist o Hf Hc). apply changed_demanded_refl.
   Qed.
 End Final.
